@@ -12,6 +12,9 @@ vf/ref/http1.py):
   down.parse    bytes written to the client parse as a response sequence in the context of the request methods
   down.match    every tagged response equals the flow's response snapshotted at the `response` hook and answers
                 the request with that tag; untagged ones are mitmproxy's own (error page / 100 Continue)
+  up.streamed / down.streamed   (streaming leg) a message relayed while it arrives carries the header fields recorded at the
+                hook and exactly the body the independent parser reads from the sender's bytes (and the stored body, when
+                store_streamed_bodies is on); the framing the peer sees must still delimit it (keep-alive vs. close)
 """
 import re
 
@@ -26,7 +29,7 @@ LEVEL = "exploration"
 ENGINE = "sansio"
 BUDGET = {"quick": (1200, 22), "thorough": (60000, 240)}
 WORKERS = {"quick": 4, "thorough": 16}
-REQUIRED = ["up.parse", "up.match", "up.ambiguous", "down.parse", "down.match"]
+REQUIRED = ["up.parse", "up.match", "up.ambiguous", "down.parse", "down.match", "up.streamed", "down.streamed"]
 TECHNIQUE = "runtime monitoring: sans-io schedule exploration + differential wire oracle (independent RFC 9112 parser)"
 RULE = (
     "case = (mode, 1-4 pipelined generated requests with hostile framing features, hostile scripted responses, addon edit "
@@ -35,7 +38,8 @@ RULE = (
 )
 ASSUMPTIONS = [
     "header comparison modulo name case / OWS / obs-fold; bare CR and NUL inside values tolerated (DESIGN 3.1), counted as lenient_octets_forwarded",
-    "addon edits use the public API framing-consistently (DESIGN 3.3); no kill/streaming here (C03/C07/C11)",
+    "addon edits use the public API framing-consistently (DESIGN 3.3); no kill here (C03/C11)",
+    "streaming leg (30% of cases: stream_large_bodies / message.stream=True, store_streamed_bodies on or off): a streamed message is compared with the body the independent parser reads from the sender's bytes and with the header fields recorded at the hook; a streamed message whose flow ends in an error (or whose client half-closed) may legitimately be incomplete at the peer",
     "identical duplicate Content-Length values may be either rejected or forwarded (RFC 9112 6.3 allows both)",
 ]
 LEVEL_TEXT = (
@@ -54,11 +58,21 @@ MUST_REJECT = (
 MODES = ["regular", "regular", "transparent", "reverse:http://example.com:80"]
 
 
-def make_policy(rng, kinds_out):
+def make_policy(rng, kinds_out, st=None):
     def policy(drv, hook):
         f = getattr(hook, "flow", None)
         if f is None or not hasattr(f, "request"):
             return None
+        if st and hook.name in ("requestheaders", "responseheaders"):
+            msg = f.request if hook.name == "requestheaders" else f.response
+            if msg is not None and rng.random() < st["req_p" if hook.name == "requestheaders" else "resp_p"]:
+                msg.stream = True
+                kinds_out.add(("req" if hook.name == "requestheaders" else "resp") + ":stream")
+            return "delay" if rng.random() < 0.15 else None
+        if st and hook.name in ("request", "response") and getattr(f.request if hook.name == "request" else f.response, "stream", False):
+            # already relayed: an edit now is too late to reach the wire (and is not what C01 quantifies over)
+            kinds_out.add(("req" if hook.name == "request" else "resp") + ":streamed")
+            return "delay" if rng.random() < 0.2 else None
         if hook.name == "request":
             a = rng.choice(["pass", "pass", "addh", "delh", "body", "body0", "delay"])
             if a == "addh":
@@ -114,6 +128,32 @@ def classify(kind, info):
 
 def run_case(ctx, opts, addons):
     r = ctx.rng
+    st = None
+    if r.random() < 0.3:
+        # streaming leg: bodies relayed while they arrive (option- and addon-driven), optionally recorded (store_streamed_bodies)
+        st = {"slb": r.choice([None, None, "1", "12"]), "store": r.random() < 0.5, "req_p": r.choice([0.0, 0.5, 1.0]), "resp_p": r.choice([0.0, 0.5, 1.0])}
+        opts.update(stream_large_bodies=st["slb"], store_streamed_bodies=st["store"])
+        ctx.count("streaming_cases")
+    try:
+        return _run_case(ctx, opts, addons, r, st)
+    finally:
+        if st:
+            opts.update(stream_large_bodies=None, store_streamed_bodies=False)
+
+
+def _ref_body(raw, methods=None):
+    """Body the independent parser reads from one generated message (None if it does not read exactly one message)."""
+    if methods is None:
+        status, msgs, rest = ref.parse_requests(raw)
+    else:
+        status, msgs, rest = ref.parse_responses(raw, methods, eof=True)
+        msgs = [m for m in msgs if not 100 <= m["status"] < 200]
+    if status != "ok" or rest or len(msgs) != 1:
+        return None
+    return msgs[0]["body"]
+
+
+def _run_case(ctx, opts, addons, r, st):
     mode = r.choice(MODES)
     gmode = "regular" if mode == "regular" else "origin"
     n = r.choice([1, 1, 2, 3, 4])
@@ -139,7 +179,7 @@ def run_case(ctx, opts, addons):
         options=opts,
         rng=r,
         addons=[ForceHttp()],
-        policy=make_policy(r, kinds),
+        policy=make_policy(r, kinds, st),
         server_factory=lambda drv, conn: peers.H1ServerPeer(responder, r, r.choice(["whole", "random", "random", "bytes"])),
         schedule=r.choice(["random", "random", "fifo"]),
         snapshot=sansio.http_snapshot,
@@ -163,7 +203,7 @@ def run_case(ctx, opts, addons):
     ctx.seen("hook_sequences", ",".join(d.hook_names()))
 
     # snapshots by tag
-    req_snap, resp_snap = {}, {}
+    req_snap, resp_snap, reqh_snap, resph_snap, errored = {}, {}, {}, {}, set()
     for step, name, hook, snap in d.hooks:
         if snap is None or not snap["request"]:
             continue
@@ -174,7 +214,17 @@ def run_case(ctx, opts, addons):
             req_snap[m.group(0)] = snap
         elif name == "response":
             resp_snap[m.group(0)] = snap
+        elif name == "requestheaders":
+            reqh_snap[m.group(0)] = snap
+        elif name == "responseheaders":
+            resph_snap[m.group(0)] = snap
+        elif name == "error":
+            errored.add(m.group(0))
+    # a streamed message whose flow ends in an error has been relayed up to the point of the error: the peer then holds an
+    # incomplete message (and the connection is closed), which is the only way left to signal the error
+    stream_err = st is not None and bool(errored)
 
+    client_incomplete = st is not None and any(ref.parse_requests(stream, lenient=l)[0] == "incomplete" for l in (False, True))
     # ---------------- upstream side
     forwarded = []
     seen_up = set()
@@ -184,6 +234,13 @@ def run_case(ctx, opts, addons):
             continue
         status, msgs, rest = ref.parse_requests(data)
         ctx.count("up.parse")
+        if status == "incomplete" and stream_err:
+            ctx.count("up.incomplete_after_streamed_error")
+            continue
+        if status == "incomplete" and st is not None and client_incomplete:
+            # the client's own stream ends inside a message body (declared length never reached): the streamed copy does too
+            ctx.count("up.incomplete_like_client_stream")
+            continue
         if status != "ok" or rest:
             ctx.violation("upstream-bytes-not-a-request-sequence", {**witness_base, "upstream": data, "status": status, "rest_or_reason": rest}, classify("up.parse", None))
             continue
@@ -197,6 +254,9 @@ def run_case(ctx, opts, addons):
             seen_up.add(tag)
             forwarded.append(tag)
             snap = req_snap.get(tag)
+            if snap is None and st is not None and tag in reqh_snap and tag in errored:
+                ctx.count("up.streamed_then_errored")
+                continue
             if snap is None:
                 ctx.violation("forwarded-without-request-hook", {**witness_base, "upstream": data, "tag": tag})
                 continue
@@ -208,7 +268,14 @@ def run_case(ctx, opts, addons):
                 diffs.append(("target", msg["target"], rq["path"]))
             if ref.norm_headers(msg["headers"]) != ref.norm_headers(rq["headers"]):
                 diffs.append(("headers", ref.norm_headers(msg["headers"]), ref.norm_headers(rq["headers"])))
-            if msg["body"] != (rq["content"] or b""):
+            if st is not None and rq["stream"]:
+                ctx.count("up.streamed")
+                want = _ref_body(by_tag[tag]["raw"])
+                if want is not None and msg["body"] != want:
+                    diffs.append(("streamed-body", msg["body"], want))
+                if st["store"] and msg["body"] != (rq["content"] or b""):
+                    diffs.append(("stored-streamed-body", msg["body"], rq["content"]))
+            elif msg["body"] != (rq["content"] or b""):
                 diffs.append(("body", msg["body"], rq["content"]))
             if any((b"\r" in v.replace(b"\r\n", b"") or b"\x00" in v) for _, v in rq["headers"]):
                 ctx.count("lenient_octets_forwarded")
@@ -216,6 +283,18 @@ def run_case(ctx, opts, addons):
                 ctx.violation("upstream-request-differs-from-flow", {**witness_base, "upstream": data, "tag": tag, "diffs": diffs})
     # ambiguous inputs must not be forwarded
     all_up = b"".join(bytes(d.out[c]) for c in d.servers)
+    if st is not None:
+        # with streaming, an (over)long declared body legitimately carries later bytes of the client stream as BODY octets of the
+        # streamed request: look for the tag in request lines only
+        heads = []
+        for c in d.servers:
+            status, msgs, rest = ref.parse_requests(bytes(d.out[c]))
+            heads += [m["target"] for m in msgs]
+            if status == "incomplete":
+                heads.append(bytes(rest).lstrip(b"\r\n").split(b"\r\n", 1)[0])
+            elif status != "ok":
+                heads.append(bytes(d.out[c]))
+        all_up = b"\n".join(heads)
     for q in reqs:
         verdict, reason = ref.classify_request_input(q["raw"].lstrip(b"\r\n"))
         must = verdict == "ambiguous" and any(reason.startswith(p) for p in MUST_REJECT)
@@ -241,7 +320,12 @@ def run_case(ctx, opts, addons):
         if status != "ok" or rest:
             status, msgs, rest = ref.parse_responses(down, methods, eof=True)
         ctx.count("down.parse")
-        if status != "ok" or rest:
+        if status == "incomplete" and stream_err:
+            ctx.count("down.incomplete_after_streamed_error")
+        elif status == "incomplete" and st is not None and eof_early:
+            # the client closed its side while a streamed response was in flight: mitmproxy closes too, the rest is not delivered
+            ctx.count("down.incomplete_after_client_fin")
+        elif status != "ok" or rest:
             # was it mitmproxy's own error page sent in answer to a HEAD request?
             st2, msgs2, rest2 = ref.parse_responses(down, ["GET" if m_ == "HEAD" else m_ for m_ in methods], eof=True)
             info["error_page_for_head"] = (
@@ -262,6 +346,9 @@ def run_case(ctx, opts, addons):
                     ctx.violation("response-answers-wrong-request", {**witness_base, "down": down, "tag": tag, "for_request": msg["for_request"]}, classify("response-answers-wrong-request", info))
                     continue
                 snap = resp_snap.get(tag)
+                if (snap is None or snap["response"] is None) and st is not None and tag in resph_snap and tag in errored:
+                    ctx.count("down.streamed_then_errored")
+                    continue
                 if snap is None or snap["response"] is None:
                     ctx.violation("tagged-response-without-response-hook", {**witness_base, "down": down, "tag": tag}, classify("tagged-response-without-response-hook", info))
                     continue
@@ -271,13 +358,20 @@ def run_case(ctx, opts, addons):
                     diffs.append(("status", msg["status"], rs["status_code"]))
                 if ref.norm_headers(msg["headers"]) != ref.norm_headers(rs["headers"]):
                     diffs.append(("headers", ref.norm_headers(msg["headers"]), ref.norm_headers(rs["headers"])))
-                if msg["body"] != (rs["content"] or b""):
+                if st is not None and rs["stream"]:
+                    ctx.count("down.streamed")
+                    want = _ref_body(resp_by_tag[tag]["raw"], [reqs[msg["for_request"]]["method"]]) if tag in resp_by_tag else None
+                    if want is not None and msg["body"] != want:
+                        diffs.append(("streamed-body", msg["body"], want))
+                    if st["store"] and msg["body"] != (rs["content"] or b""):
+                        diffs.append(("stored-streamed-body", msg["body"], rs["content"]))
+                elif msg["body"] != (rs["content"] or b""):
                     diffs.append(("body", msg["body"], rs["content"]))
                 if diffs:
                     ctx.violation("client-response-differs-from-flow", {**witness_base, "down": down, "tag": tag, "diffs": diffs}, classify("client-response-differs-from-flow", info))
 
     rf = sorted(set().union(*[q["feats"] for q in reqs]))
-    sig = (mode.split(":")[0], tuple(rf), tuple(sorted(resp_feats)), tuple(sorted(kinds)), len(forwarded))
+    sig = (mode.split(":")[0], tuple(rf), tuple(sorted(resp_feats)), tuple(sorted(kinds)), len(forwarded), (st["slb"], st["store"]) if st else None)
     hostile = bool(set(rf) - {"cl", "chunked", "body-empty"}) or bool(resp_feats) or any(not k.endswith("pass") for k in kinds)
     return sig, bool(forwarded) and hostile, {"mode": mode, "client_stream": stream[:400], "forwarded": [t.decode() for t in forwarded], "hooks": d.hook_names()}
 
